@@ -42,7 +42,7 @@ REAL_VS_STUB = {
              'Python registry lookup'],
     'stub_or_simulator_owned': ['block program (choice tape)', 'injected exceptions', 'predicate callbacks'],
 }
-EXPECTED_PROBES = ('registry-churn-in-block', 'enter-form:prebuilt', 'enter-form:decorator', 'raise-base-exception', 'raise-from-optree', 'enter', 'exit', 'raise-exit', 'raise-in-callback', 'non-lifo-exit', 'nested-depth>=3', 'false-inside-true',
+EXPECTED_PROBES = ('carried-unflatten', 'registry-churn-in-block', 'enter-form:prebuilt', 'enter-form:decorator', 'raise-base-exception', 'raise-from-optree', 'enter', 'exit', 'raise-exit', 'raise-in-callback', 'non-lifo-exit', 'nested-depth>=3', 'false-inside-true',
                    'iterator-across-exit', 'observe')
 
 V = _C._verif if hasattr(_C, '_verif') else None
@@ -367,10 +367,39 @@ def run_job(job, io):
         if len(violations) < 6:
             violations.append({'cls': cls, 'site': site, 'msg': '%s | program=%s' % (msg, ' '.join(oplog[-14:]))})
 
+    carried = []  # treespecs made at one point of the program and USED at later points, under whatever mode holds then
+
+    def carry(site):
+        # every treespec made so far still rebuilds its own tree, original key order included, whatever blocks are open now
+        for made_at, cns, how, spec, leaves, orig in carried:
+            try:
+                back = optree.tree_unflatten(spec, leaves)
+                d = same(orig, back)
+            except Exception as e:  # noqa: BLE001
+                d = 'raised %s: %s' % (type(e).__name__, e)
+            if d:
+                viol('round-trip', 'carried:' + how, 'a treespec made at %s (namespace %r) and unflattened at %s no longer rebuilds its tree: %s' % (made_at, cns, site, d))
+                break
+        probes['carried-unflatten'] += len(carried)
+        if len(carried) < 6 and tape.draw(3, 'carry-new') == 0:
+            cns = ('', 'a', 'b')[tape.draw(3, 'carry-ns')]
+            tree = {'b': 1, 'a': {'n': 2, 'm': (3, 4)}, 'c': defaultdict(int, {'z': 5, 'y': 6}), 'o': OrderedDict([('q', 7), ('p', 8)])}
+            leaves, spec = optree.tree_flatten(tree, namespace=cns)
+            how = ('flatten', 'pickled', 'child')[tape.draw(3, 'carry-how')]
+            if how == 'pickled':
+                spec = pickle.loads(pickle.dumps(spec))
+            elif how == 'child':
+                sub = tree['a'] if tape.draw(2, 'carry-child') else tree['c']
+                leaves, spec = optree.tree_flatten(sub, namespace=cns)
+                spec = optree.treespec_tuple([spec], namespace=cns).child(0)
+                tree = sub
+            carried.append((site, cns, how, spec, leaves, tree))
+
     def step(site, before):
         steps[0] += 1
         io.progress({'site': site, 'tape': tape.values})
         after = observe(model, viol, site, probes, extra_tree)
+        carry(site)
         if after != model.vector():
             pass  # mismatches already reported by observe
         k = '%s|%s|%s' % (before, site, after)  # site carries the nesting depth
